@@ -9,6 +9,7 @@ import (
 	"sync"
 	"sync/atomic"
 	"time"
+	"verif/harness/gsim"
 
 	"github.com/andydunstall/piko/pkg/gossip"
 	"github.com/andydunstall/piko/pkg/log"
@@ -393,13 +394,13 @@ func runC20Nodes(r *rand.Rand, sh *core.Shard, workers, opsPer int) (sig, what s
 
 type nullWatcher struct{ events atomic.Int64 }
 
-func (w *nullWatcher) OnJoin(string)                  { w.events.Add(1) }
-func (w *nullWatcher) OnLeave(string)                 { w.events.Add(1) }
-func (w *nullWatcher) OnReachable(string)             { w.events.Add(1) }
-func (w *nullWatcher) OnUnreachable(string)           { w.events.Add(1) }
-func (w *nullWatcher) OnUpsertKey(_, _, _ string)     { w.events.Add(1) }
-func (w *nullWatcher) OnDeleteKey(_, _ string)        { w.events.Add(1) }
-func (w *nullWatcher) OnExpired(string)               { w.events.Add(1) }
+func (w *nullWatcher) OnJoin(string)              { w.events.Add(1) }
+func (w *nullWatcher) OnLeave(string)             { w.events.Add(1) }
+func (w *nullWatcher) OnReachable(string)         { w.events.Add(1) }
+func (w *nullWatcher) OnUnreachable(string)       { w.events.Add(1) }
+func (w *nullWatcher) OnUpsertKey(_, _, _ string) { w.events.Add(1) }
+func (w *nullWatcher) OnDeleteKey(_, _ string)    { w.events.Add(1) }
+func (w *nullWatcher) OnExpired(string)           { w.events.Add(1) }
 
 func runC20Gossip(r *rand.Rand, sh *core.Shard, dur time.Duration) (sig, what string, inconclusive string) {
 	const N = 3
@@ -483,7 +484,11 @@ func runC20Gossip(r *rand.Rand, sh *core.Shard, dur time.Duration) (sig, what st
 			tasks.Add(1)
 			time.Sleep(time.Duration(wr.Intn(200)) * time.Microsecond)
 		})
-		spawn(func(wr *rand.Rand) { _ = x.v.GossipRound(); tasks.Add(1); time.Sleep(time.Duration(wr.Intn(500)) * time.Microsecond) })
+		spawn(func(wr *rand.Rand) {
+			_ = x.v.GossipRound()
+			tasks.Add(1)
+			time.Sleep(time.Duration(wr.Intn(500)) * time.Microsecond)
+		})
 		// status readers
 		spawn(func(wr *rand.Rand) {
 			for _, m := range x.g.Nodes() {
@@ -540,6 +545,12 @@ func runC20Gossip(r *rand.Rand, sh *core.Shard, dur time.Duration) (sig, what st
 }
 
 func runC20(sh *core.Shard, a props.Args) {
+	// (c) component-level: one node's gossip state + syncer + cluster.State fed
+	// from several goroutines with liveness flips and expiry sweeps; the routing
+	// table must mirror the gossip view when activity stops
+	if !gsim.RunRoutingConcurrent(sh, a, "C20", a.Pick(8000, 200000)) {
+		return
+	}
 	reps := a.Pick(16, 160)
 	for i := 0; i < reps; i++ {
 		if !a.Mine(i) {
@@ -578,12 +589,12 @@ func runC20(sh *core.Shard, a props.Args) {
 func init() {
 	props.Register(&props.Prop{
 		ID: "C20", Level: "exploration", Race: true, Parallel: 4, BoundedTime: true,
-		Rule: "race-built workloads, repeated (quick 16, thorough 160 repetitions, alternating): (a) 3 real nodes with 10 ms gossip and 16-32 (thorough 64) worker goroutines each doing a fixed number of operations drawn from {connect an HTTP/TCP upstream (half with an agent-style cancelled context), go-away or disconnect one, HTTP request by Host label or TCP tunnel through a random node for one of 5 endpoints, read a status route or /metrics}, while one node at a time is shut down gracefully and replaced twice; every operation runs under a 30 s watchdog (about 1000x its normal latency) whose expiry is a violation; responses must carry a stamp of the addressed endpoint or be 502/504; (b) 3 gossip.New instances over loopback UDP/TCP with 5 ms interval and per instance 2 writers, a goroutine calling CompactLocal/UpdateLiveness/RemoveExpired, one calling gossipRound and a status reader, all spinning for 1.5 s (5 s), so the periodic tasks interleave with packet/stream handling thousands of times. Oracle: zero race-detector reports (any report is a violation, de-duplicated by outermost frames), no panic or fatal error (the child process would die and is reported), no watchdog expiry, and at the final quiescent point (polled 40 s) on every node registry == routing-table entry == published gossip entries and every node's table mirrors every other node's own state / every gossip view equals the owner's state. Distinct = one per repetition (hash of its seed); the evidence lists operation counts.",
+		Rule: "race-built workloads, repeated (quick 16, thorough 160 repetitions, alternating): (a) 3 real nodes with 10 ms gossip and 16-32 (thorough 64) worker goroutines each doing a fixed number of operations drawn from {connect an HTTP/TCP upstream (half with an agent-style cancelled context), go-away or disconnect one, HTTP request by Host label or TCP tunnel through a random node for one of 5 endpoints, read a status route or /metrics}, while one node at a time is shut down gracefully and replaced twice; every operation runs under a 30 s watchdog (about 1000x its normal latency) whose expiry is a violation; responses must carry a stamp of the addressed endpoint or be 502/504; (b) 3 gossip.New instances over loopback UDP/TCP with 5 ms interval and per instance 2 writers, a goroutine calling CompactLocal/UpdateLiveness/RemoveExpired, one calling gossipRound and a status reader, all spinning for 1.5 s (5 s), so the periodic tasks interleave with packet/stream handling thousands of times. (c) one node's real gossip state + syncer + cluster.State fed digests/deltas of 3-5 owners from 3-5 goroutines released together with liveness flips and expiry sweeps (thousands of short rounds): when the goroutines have returned the routing table mirrors the gossip view. Oracle: zero race-detector reports (any report is a violation, de-duplicated by outermost frames), no panic or fatal error (the child process would die and is reported), no watchdog expiry, and at the final quiescent point (polled 40 s) on every node registry == routing-table entry == published gossip entries and every node's table mirrors every other node's own state / every gossip view equals the owner's state. Distinct = one per repetition (hash of its seed); the evidence lists operation counts.",
 		Assumptions: []string{
 			"the race detector only sees the interleavings that occurred; repetitions and high-frequency task invocation widen, not enumerate, them",
 			"the E4 concurrent phases of C05 and C15 run under the same detector and count towards this property's reach",
 		},
-		RequireCounters: []string{"operations", "requests_served", "status_reads", "upstream_churn_events", "node_restarts", "burst_rounds", "gossip_local_writes", "gossip_task_invocations", "gossip_watcher_events", "final_consistency_checks"},
+		RequireCounters: []string{"operations", "requests_served", "status_reads", "upstream_churn_events", "node_restarts", "burst_rounds", "gossip_local_writes", "gossip_task_invocations", "gossip_watcher_events", "final_consistency_checks", "concurrent_routing_rounds", "concurrent_routing_nodes_compared"},
 		MaxCounters:     []string{"slowest_operation_ms"},
 		Shards:          func(string) int { return 16 },
 		Timeout: func(tier string) time.Duration {
